@@ -108,12 +108,36 @@ def r2(ctx, ts):
         return
     sbb, m, els, adt, _ = ves[0]
     allv = [n for _, n in ctx.w.enum_variants(adt)]
+    refine = None
     for pbb, pt in pushes:
         reach = []
         for v in allv:
             e = m.get(v, els)
             if pbb in b.reachable(e[1]) or e[1] == pbb:
                 reach.append(v)
+        if not set(reach) <= {"Healthy", "Hold"} and refine is None:
+            # the verdict travels through an Option (`let Some(status) = self.delivery_status(..) else { return }`, inlined): the arms of
+            # the state match assign Some / None to one local, the push sits behind the Some edge of a test of that local
+            for osbb, om, oels, oadt, opl in variant_edges(b, lambda p: not p.get("p")):
+                if oadt != "std::option::Option" or "Some" not in om or not b.dominated_by_edge(pbb, om["Some"]):
+                    continue
+                ol = origin(b, {"c": opl})
+                L = ol["p"]["l"] if ol["k"] == "place" else opl["l"]
+                per = {}
+                for v in allv:
+                    e = m.get(v, els)
+                    got = set()
+                    for d in b.defs().get(L, []):
+                        if d[1] != "term" and d[2]["r"]["k"] == "agg" and d[2]["r"].get("variant") in ("Some", "None") and (d[0] in b.reachable(e[1])) and b.dominated_by_block(d[0], sbb):
+                            # the definition belongs to this arm when removing the arm's edge cuts it off from the other arms' point of view
+                            if b.dominated_by_any(d[0], edges=[m.get(v2, els) for v2 in allv if m.get(v2, els) == e]):
+                                got.add(d[2]["r"]["variant"])
+                    per[v] = got
+                if all(per.values()):
+                    refine = (om["Some"], per)
+                    break
+        if refine is not None and b.dominated_by_edge(pbb, refine[0]):
+            reach = [v for v in reach if "Some" in refine[1][v]]
         ok = set(reach) <= {"Healthy", "Hold"} and b.dominated_by_block(pbb, sbb)
         ctx.inst(R, "enqueue:push-states", ok, pt["s"],
                  f"push onto Link::sent reachable under states {reach}" + ("" if ok else
@@ -126,6 +150,8 @@ def r2(ctx, ts):
         r = b.reachable(e[1])
         touched = [bb for bb, t in b.calls() if bb in r and t["args"] and _on_field(b, t["args"][0], "turmoil::top::Link::sent")
                    and not re.search(r"::(len|is_empty|iter)$", t["f"])]
+        if refine is not None and refine[1].get(v) == {"None"}:
+            touched = [x for x in touched if not b.dominated_by_edge(x, refine[0])]
         ctx.inst(R, f"enqueue:drop:{v}", not touched, b.term(e[1]).get("s", b.span),
                  f"state {v} returns without queuing" if not touched else f"state {v} still reaches a mutation of Link::sent")
     ctx.floor(R, 4)
@@ -349,6 +375,14 @@ def r6(ctx, ops=("partition", "partition_oneway", "repair", "repair_oneway"), R=
                         pa = [sorted(int(z.split(":")[1]) for z in at if z.startswith("arg:") and z.endswith("@" + F)) for at in a]
                         if (n - 1 in pa[0] and n not in pa[0]) and (n in pa[1] and n - 1 not in pa[1]):
                             good = True
+                    if not good:
+                        # a shared private helper `on_world_pairs(a, b, f)`: the two host sets are its first two parameters (the third is
+                        # the operation). Whatever the owner, each forwarded argument comes from one parameter and the order is kept
+                        owners = {z.rsplit("@", 1)[1] for at in a for z in at if z.startswith("arg:") and "{closure" not in z.rsplit("@", 1)[1]}
+                        for F in owners:
+                            pa = [sorted({int(z.split(":")[1]) for z in at if z.startswith("arg:") and z.endswith("@" + F)}) for at in a]
+                            if len(pa[0]) == 1 and len(pa[1]) == 1 and pa[0][0] < pa[1][0] and len(owners) == 1:
+                                good = True
                     ctx.inst(R, f"{fb.id}->{t['f'].rsplit('::', 1)[1]}:argument-order", good, t["s"], "host arguments forwarded in order" if good else
                              f"`{fb.id}` forwards its two host arguments to `{t['f']}` swapped or mixed: the direction of the operation is reversed")
 
